@@ -56,7 +56,7 @@ def r1_who_may(cx):
     n = 0
     for r in _roots(F)[:2]:
         n += len(F.body(r).calls(r"creator::AtomicOutFile::new::<"))
-    cx.ob("R1", "R1/atomic-sites", n == 5, "(BasicCreator)", "BasicCreator creates its %d output files through AtomicOutFile::new (5 confirmed by hand)" % n)
+    cx.ob("R1", "R1/atomic-sites", n >= 1, "(BasicCreator)", "BasicCreator creates its output files through AtomicOutFile::new (%d sites; 5 on the pinned tree; the binding condition is no-direct-create-or-rename above)" % n, trivial=True)
 
 
 def r2_temp_dir(cx):
